@@ -27,6 +27,26 @@ def rendezvous_case(args):
     return r
 
 
+def wake_all_case(args):
+    """a multi-core task releases several slots at once: all waiting tasks that fit must then run together.
+    gate (2 x 1 core) -> small (2 x 1 core, rendezvous of 2); hold (m cores, m = max) competes from the start"""
+    seed, i = args
+    rng = random.Random(seed * 122949823 + i)
+    k = rng.randint(2, 3)
+    sp = t3.Spec(maxtasks=k, bufsize=rng.choice([1, 128]))
+    vals = ["g%d" % j for j in range(k)]
+    g = sp.proc(t3.Proc("gate", kind="write", pars=[("q", ("V", vals))], outs=[("o", "gate.{p:q}.txt")], cores=1, sleep="sleep 0.1"))
+    sp.proc(t3.Proc("hold", kind="write", outs=[("o", "hold.txt")], cores=k, sleep="sleep 0.3"))
+    rdv = RDV.replace("{p:q}", "{i:a|basename}") % k
+    sp.proc(t3.Proc("small", kind="cat", ins=[("a", [(g, "o")])], outs=[("o", "{i:a}.small")], cores=1, pre=rdv))
+    ys = (rng.randint(1, 10**6), 500) if rng.random() < 0.5 else None
+    r = t3.success_case(sp, yield_seed=ys, timeout=60)
+    if r["rc"] != 0:
+        r["problems"] = [("not-simultaneous", "after a %d-core task released its slots, the %d waiting 1-core tasks did not all run at the same time (rendezvous timed out): %s" % (k, k, r["stderr"][-150:]))]
+    r["kind"] = "wake-all"
+    return r
+
+
 def mixed_case(args):
     """tasks with different core counts compete, with delays between the individual token deposits: must terminate"""
     seed, i = args
@@ -71,6 +91,7 @@ def run(rep, tier, seed):
     n = 24 if tier == "quick" else 400
     results = t3.run_many(rendezvous_case, [(seed, i) for i in range(n)])
     results += t3.run_many(mixed_case, [(seed, i) for i in range(n)])
+    results += t3.run_many(wake_all_case, [(seed, i) for i in range(n // 2)])
     results += t3.run_many(oversize_case, [(seed, i) for i in range(max(6, n // 4))])
     t3.report_t3(rep, MODULE, proved, results, "T3 rendezvous / mixed cores / oversize")
     rep.cov["evaluations"] = len(results)
